@@ -436,6 +436,7 @@ func init() {
 // decodable entry is answered (or is a notification); (param-validated) a parameter value is handed to the handler only
 // after it was decoded into the handler's type and — when a validator is configured — validated.
 func c11BatchAndParams(c *Ctx) {
+	c11BodyLimitConstant(c)
 	c11UnknownNameRejected(c)
 	p := c.P
 	if f := p.Func("jsonrpc", "Server", "handleBatchRequest"); f != nil {
@@ -810,4 +811,31 @@ func c11UnknownNameRejected(c *Ctx) {
 		how = h
 	}
 	c.check(bad == "" && len(pass) > 0, "unknown-name-rejected", "buildArguments: named parameters", p.Pos(ta.Pos()), "every successful path of the by-name branch passes the unknown-name test ("+how+")", "the by-name branch reaches the successful return at "+bad+" without testing the params object for names the method does not declare: a misspelt optional parameter is silently replaced by its default")
+}
+
+
+// c11BodyLimitConstant: the HTTP transport bounds the request body with a limit the server chooses — a positive compile-time
+// constant — never with a number taken from the request. A limit derived from Content-Length is −1 for every streamed
+// (chunked / HTTP/2) request, which http.MaxBytesReader turns into 0: a perfectly valid request is answered with a parse
+// error and its handler never runs (seeded change C11-I).
+func c11BodyLimitConstant(c *Ctx) {
+	p := c.P
+	n := 0
+	for _, fn := range p.sortedFuncs() {
+		if pkgRelOf(fn) != "jsonrpc" || len(fn.Blocks) == 0 || strings.HasSuffix(p.Pos(fnPos(fn)), "_test.go") {
+			continue
+		}
+		for _, s := range sitesOf(fn) {
+			if s.CalleeName() != "net/http.MaxBytesReader" || len(s.Args()) < 3 {
+				continue
+			}
+			n++
+			k, ok := s.Args()[2].(*ssa.Const)
+			okc := ok && k.Value != nil && k.Int64() > 0
+			c.check(okc, "body-limit-constant", qname(fn)+" → http.MaxBytesReader", p.Pos(s.Pos()), "the body limit is a positive constant", "the body limit is "+term(s.Args()[2])+", not a positive constant chosen by the server: a value derived from the request (Content-Length is −1 for streamed bodies) makes MaxBytesReader refuse valid requests")
+		}
+	}
+	if n == 0 {
+		c.und("body-limit-constant", "jsonrpc", "", "no http.MaxBytesReader call found")
+	}
 }
